@@ -109,9 +109,11 @@ def scalar_inputs(rnd, n):
     for d in ["2.50", "1E+3", "0.000001"]:
         out.append((Decimal(d), desc("toscalar", b=B(d))))
     out.append((Literal("a+b"), desc("literal", b=B("a+b"))))
-    ms = ["1", "1000", "0.001", "1.5", "-2.50", "123456789012345678901234", "0.999999999999999999999999", "1E+3", "0"]
-    for p in PREFIX_EXPS:
-        for m in rnd.sample(ms, n):
+    ms = ["1", "1000", "0.001", "1.5", "-2.50", "123456789012345678901234", "0.999999999999999999999999", "1E+3", "0",
+          "1.0000000000000000000000000000001", "0.12345678901234567890123456789012345", str(2 ** 100), "1267650600228229401496703205376.5"]
+    longs = [m for m in ms if len(m) > 28]
+    for k, p in enumerate(PREFIX_EXPS):
+        for m in rnd.sample(ms, n) + [longs[k % len(longs)]]:     # every prefix also gets a mantissa beyond the default 28-digit decimal context
             dm = Decimal(m)
             out.append((Prefixed(number=dm, prefix=Prefix.from_exp(p)), desc("prefixed", p=p, **dec_fields(dm))))
     return out
@@ -144,12 +146,20 @@ def gen_cases(tier, seed):
     for k in range(len(sc)):
         cases.append({"target": "ExtDict", "kind": "extdict", "set": {"x": k}, "pool": "scalar_raw"})
         cases.append({"target": "ExtClass", "kind": "extclass", "set": {"s": k}, "pool": "scalar"})
+    for k in range(len(EQUAL_PAIRS)):
+        for order in (0, 1):
+            cases.append({"target": "IdealResistor", "kind": "ideal", "set": {"r": k}, "pool": "pair", "order": order, "which": 0})
+            cases.append({"target": "IdealResistor", "kind": "ideal", "set": {"r": k}, "pool": "pair", "order": order, "which": 1})
+            cases.append({"target": "ExtDict", "kind": "extdict", "set": {"x": k}, "pool": "pair", "order": order, "which": 0})
+            cases.append({"target": "ExtDict", "kind": "extdict", "set": {"x": k}, "pool": "pair", "order": order, "which": 1})
     for k in range(12):
         cases.append({"target": "ExtDict", "kind": "extdict", "set": {"x": k}, "pool": "misc"})
         cases.append({"target": "ExtClass", "kind": "extclass", "set": {"m": k}, "pool": "misc_class"})
     return cases, sc
 
 
+# (mantissa, prefix exponent) pairs denoting equal values
+EQUAL_PAIRS = [(("1", 3), ("1000", 0)), (("1000000", -3), ("1", 3)), (("2.50", 0), ("2.5", 0)), (("1E+3", 0), ("1000", 0)), (("0.001", 6), ("1", 3))]
 MISC = None
 
 
@@ -170,7 +180,15 @@ def run_case(args):
     ev = {"tid": tid, "target": case["target"], "kind": case["kind"], "raised": False, "refdomain": "", "refname": "", "inp": [], "out": [], "exc": "", "stage": "call"}
     try:
         (field, k), = case["set"].items()
-        if case["pool"] in ("scalar", "scalar_raw"):
+        other = None
+        if case["pool"] == "pair":
+            from hdl21.prefix import Prefixed, Prefix
+            pr = EQUAL_PAIRS[k]
+            mk = lambda t: Prefixed(number=Decimal(t[0]), prefix=Prefix.from_exp(t[1]))
+            mine, theirs = pr[case["which"]], pr[1 - case["which"]]
+            v, d = mk(mine), desc("prefixed", p=mine[1], **dec_fields(Decimal(mine[0])))
+            other = mk(theirs)
+        elif case["pool"] in ("scalar", "scalar_raw"):
             v, d = sc[k]
         elif case["pool"] == "str":
             v, d = [("mymodel", desc("str", b=B("mymodel"))), ("a b", desc("str", b=B("a b"))), (None, desc("none"))][k]
@@ -184,6 +202,7 @@ def run_case(args):
                 if fn != field and par.default is h.default.Default and par.default_factory is h.default.Default:
                     kw[fn] = 1
             call = prim(**kw)
+            ocall = prim(**{**kw, field: other}) if other is not None else None
             ports = [p.name for p in prim.port_list]
             params = call.params
         elif case["kind"] == "extdict":
@@ -192,6 +211,7 @@ def run_case(args):
                 # a dict has no Scalar-typed fields: the raw python value is exported by its own type
                 d = describe(v)
             call = em({field: v})
+            ocall = em({field: other}) if other is not None else None
             ports = ["a"]
             params = None
         else:
@@ -205,9 +225,18 @@ def run_case(args):
             params = call.params
         ev["stage"] = "export"
         m.s = h.Signal()
-        m.i = call(**{p: m.s for p in ports})
+        if other is not None and case["kind"] != "extclass":
+            # the equal-valued, differently written sibling is exported first or second
+            if case["order"] == 0:
+                m.j = ocall(**{p: m.s for p in ports})
+                m.i = call(**{p: m.s for p in ports})
+            else:
+                m.i = call(**{p: m.s for p in ports})
+                m.j = ocall(**{p: m.s for p in ports})
+        else:
+            m.i = call(**{p: m.s for p in ports})
         pkg = h.to_proto(m)
-        pi = pkg.modules[-1].instances[0]
+        pi = [x for x in pkg.modules[-1].instances if x.name == "i"][0]
         ev["refdomain"] = pi.module.external.domain
         ev["refname"] = pi.module.external.name
         ev["out"] = [{"name": p.name, "val": out_value(p.value)} for p in pi.parameters]
@@ -253,6 +282,7 @@ def run(tier, seed, replay_file=None):
         ok, clause = verdicts[i]
         ev = evs[i]
         o.cover["kind_" + c["kind"]] = o.cover.get("kind_" + c["kind"], 0) + 1
+        o.cover["pool_" + c["pool"]] = o.cover.get("pool_" + c["pool"], 0) + 1
         for f in ev["inp"]:
             o.cover["in_" + f["val"]["k"]] = o.cover.get("in_" + f["val"]["k"], 0) + 1
         for f in ev["out"]:
@@ -265,7 +295,7 @@ def run(tier, seed, replay_file=None):
             feats = ["kind_" + c["kind"], "pool_" + c["pool"], "target_" + c["target"]]
             o.violations.append(Violation(clause=clause.split(":")[0], case=c, features=feats, detail={"inp": ev["inp"], "out": ev["out"], "exc": ev["exc"], "clause": clause}))
     o.distinct_nontrivial = nt
-    o.required_cover = ["kind_ideal", "kind_physical", "kind_extdict", "kind_extclass", "in_toscalar", "in_prefixed", "in_enum", "in_none", "in_int", "in_float",
+    o.required_cover = ["kind_ideal", "kind_physical", "kind_extdict", "kind_extclass", "pool_pair", "in_toscalar", "in_prefixed", "in_enum", "in_none", "in_int", "in_float",
                         "out_literal", "out_prefixed", "out_int64", "out_double"]
     rnd = random.Random(seed)
     for i in rnd.sample(range(len(cases)), 2):
